@@ -345,12 +345,14 @@ def run_insolve(case, rec):
     jax.clear_caches()
     Pb = training_problem(case["seed"], rng, aux=case["aux"])
     P, pat, en = case["P"], case["patience"], case["enabled"]
-    vdata = gens.make_generator(dict(kind="ode", key=case["seed"] % 89 + 5, nt=5, bt=3, tmin=0.0, tmax=1.0))
+    # the validation generators have their own batch size (2 or 3; the training generators use 3)
+    vb = 2 + case["seed"] % 2
+    vdata = gens.make_generator(dict(kind="ode", key=case["seed"] % 89 + 5, nt=5, bt=vb, tmin=0.0, tmax=1.0))
     vparam = vobs = None
     if case["aux"] in ("param", "both"):
-        vparam = jinns.data.DataGeneratorParameter(jax.random.PRNGKey(case["seed"] % 77), 7, 3, param_ranges={"kappa": (-1.0, -0.2)})
+        vparam = jinns.data.DataGeneratorParameter(jax.random.PRNGKey(case["seed"] % 77), 7, vb, param_ranges={"kappa": (-1.0, -0.2)})
     if case["aux"] in ("obs", "both"):
-        vobs = jinns.data.DataGeneratorObservations(jax.random.PRNGKey(case["seed"] % 55), 3, jnp.asarray(rng.uniform(0, 1, (7, 1))),
+        vobs = jinns.data.DataGeneratorObservations(jax.random.PRNGKey(case["seed"] % 55), vb, jnp.asarray(rng.uniform(0, 1, (7, 1))),
                                                     jnp.asarray(rng.uniform(-1, 1, (7, 1))))
     vloss = Pb["loss"]
     if case["seed"] % 2 and case["aux"] == "none":
